@@ -87,11 +87,17 @@ func pbUsers(us []User) map[string]*appctlpb.User {
 		if u.HashedHex != "" {
 			m[u.Name] = &appctlpb.User{Name: proto.String(u.Name), HashedPassword: proto.String(u.HashedHex), Quotas: u.Quotas}
 		} else {
-			m[u.Name] = &appctlpb.User{Name: proto.String(u.Name), Password: proto.String(u.Password), Quotas: u.Quotas}
+			m[u.Name] = &appctlpb.User{Name: proto.String(u.Name), Quotas: u.Quotas}
+			if u.Password != "" {
+				m[u.Name].Password = proto.String(u.Password) // a user record may carry no password at all
+			}
 		}
 	}
 	return m
 }
+
+// PBUsers converts users to the map Mux.SetServerUsers takes.
+func PBUsers(us []User) map[string]*appctlpb.User { return pbUsers(us) }
 
 func (w *World) serverAddr() net.Addr {
 	if w.Cfg.UDP {
